@@ -247,20 +247,30 @@ class Mapping(BasicMapping):
             args  = [obj[i] for i in range(pdim)]
             exprs = obj._expressions
             subs  = list(zip(_coordinates, exprs))
+            # a matrix given by the class is written with plain symbols: physical coordinates by name
+            subs  = [(Symbol(c.name), e) for c, e in subs] + subs
+
+            def parse_matrix(m):
+                # read a user-given (inverse) Jacobian like the coordinate expressions: same parameter
+                # objects / values, same (real) logical coordinates, physical coordinates -> expressions
+                m = ImmutableDenseMatrix(sympify(m))
+                for i in zero_coords:
+                    m = m.subs(sympify(i), 0)
+                return m.subs(d).subs(lcoords_symbols_real_dict).subs(subs)
 
             if obj._jac is None and obj._inv_jac is None:
                 obj._jac     = Jacobian(obj).subs(list(zip(args, exprs)))
                 obj._inv_jac = obj._jac.inv() if pdim == ldim else None
             elif obj._inv_jac is None:
-                obj._jac     = ImmutableDenseMatrix(sympify(obj._jac)).subs(subs)
+                obj._jac     = parse_matrix(obj._jac)
                 obj._inv_jac = obj._jac.inv() if pdim == ldim else None
 
             elif obj._jac is None:
-                obj._inv_jac = ImmutableDenseMatrix(sympify(obj._inv_jac)).subs(subs)
+                obj._inv_jac = parse_matrix(obj._inv_jac)
                 obj._jac     = obj._inv_jac.inv()
             else:
-                obj._jac     = ImmutableDenseMatrix(sympify(obj._jac)).subs(subs)
-                obj._inv_jac = ImmutableDenseMatrix(sympify(obj._inv_jac)).subs(subs)
+                obj._jac     = parse_matrix(obj._jac)
+                obj._inv_jac = parse_matrix(obj._inv_jac)
 
         else:
             obj._jac     = Jacobian(obj)
